@@ -4,6 +4,7 @@ CONSTANTS
   MaxModel = 1
   FileMode = TRUE
   MaxOps = 0
+  Layered = FALSE
   NObj = 2
   Deviations = {"SharedFileDir"}
 CHECK_DEADLOCK FALSE
